@@ -4,6 +4,7 @@ import Drpc.Tie.Expected
   Tie (T1) for C08: the functions the codec model mirrors have the literal/operator
   fingerprint the model was written against.  Regenerated from /repo on every run.
 -/
+set_option maxRecDepth 100000
 namespace Drpc.Tie.C08
 open Drpc
 
